@@ -460,7 +460,8 @@ class JUnitReporter(Reporter):
             # -- NOTE: Scenario may fail now due to hook-errors.
             # UNEXPECTED RUNTIME-ERROR:
             report.counts_errors += 1
-            step = self.select_step_with_any_status(error_statuses, scenario.all_steps)
+            step = self.select_step_with_any_status(error_statuses + failed_statuses,
+                                                    scenario.all_steps)
             error = self._make_error_element_for(scenario, step)
             case.append(error)
             # XXX_JE_TODO: Status.undefined, Status.pending
